@@ -143,6 +143,9 @@ pub const TOKB: &[&str] = &[
     "+++ \n",
     "--- a/f b/f\n",
     "--- a/f g\t\n",
+    "--- /dev/null/\n",
+    "+++ \"/dev/null/.\"\n",
+    "+++ /dev//null\n",
     "+++ b/f g\t2020-01-02 03:04:05 +0000\n",
     "+++ b/ f\t \n",
     "@@ -1 +1,0 @@\n",
